@@ -63,7 +63,28 @@ def event_of(call):
     return ('ctx', a.value)
 
 
-def make_flow(user_calls=(), inline=(), track=('out_error',), assume=None):
+def private_helper_inliner(prog, f):
+    """Inline ``self._helper(...)`` calls to private methods of the same
+    class (a check moved into a helper is the same check)."""
+    cls = f.cls
+
+    def inliner(call):
+        if cls is None:
+            return None
+        fn = call.func
+        if isinstance(fn, ast.Attribute) and dotted(fn.value) == 'self' and \
+                fn.attr.startswith('_') and not fn.attr.endswith('__'):
+            m = prog.find_method(cls, fn.attr)
+            if m is not None and m is not f and m.cls is not None and \
+                    m.module is f.module and \
+                    (m.node.end_lineno - m.node.lineno) < 40:
+                return m.node
+        return None
+    return inliner
+
+
+def make_flow(user_calls=(), inline=(), track=('out_error',), assume=None,
+              inliner=None):
     def classify(call):
         ev = event_of(call)
         if ev is not None:
@@ -94,10 +115,12 @@ def make_flow(user_calls=(), inline=(), track=('out_error',), assume=None):
                     out.append('W:' + t.attr)
             return out
         return None
-    return SeqFlow(classify, on_stmt=on_stmt, assume=assume)
+    return SeqFlow(classify, on_stmt=on_stmt, assume=assume, inliner=inliner)
 
 
-def seqs_of(f, **kw):
+def seqs_of(f, prog=None, **kw):
+    if prog is not None:
+        kw['inliner'] = private_helper_inliner(prog, f)
     sf = make_flow(**kw)
     try:
         out = sf.run(f.node)
@@ -112,7 +135,7 @@ def fmt(seq):
 
 def check_process_request(prog, res):
     f = prog.method(APP, 'process_request')
-    seqs, nodes = seqs_of(f, user_calls=('call_wrapper',))
+    seqs, nodes = seqs_of(f, prog, user_calls=('call_wrapper',))
     res.count('dataflow_nodes', nodes)
     rets = seqs.get(RETURN, set())
     res.count('cfg_paths', sum(len(v) for v in seqs.values()))
@@ -184,15 +207,31 @@ def check_process_request(prog, res):
     for k, v in seqs.items():
         if k == RETURN:
             continue
-        for q in v:
-            res.ob('R1', where, 'process_request raises with: ' + fmt(q),
-                   'recorded', nontrivial=False)
+        for q in sorted(v):
+            if 'W:out_error' in q:
+                # raised inside a handler after the fault was recorded (e.g.
+                # a raising method_exception_object listener): outside the
+                # property's failure points
+                res.ob('R1', where, 'process_request raises with: ' + fmt(q),
+                       'recorded', nontrivial=False)
+                continue
+            names = [e for e in q if not e.startswith('W:')]
+            last = names[-1] if names else '(before method_call)'
+            if not names:
+                continue
+            res.ob('R1', where, 'process_request lets an exception escape '
+                   'after: ' + fmt(q), 'VIOLATED')
+            res.finding('R1', 'Application.process_request|escape|%s' % last,
+                        where, 'an exception raised at/after %s is not '
+                        'funnelled into out_error + method_exception_object: '
+                        'it escapes process_request on path [%s]' % (
+                            last, fmt(q)))
 
 
 def check_error_recorders(prog, res):
     for name in ('generate_contexts', 'get_in_object'):
         f = prog.method(SRV, name)
-        seqs, nodes = seqs_of(f, track=('out_error', 'in_error'))
+        seqs, nodes = seqs_of(f, prog, track=('out_error', 'in_error'))
         res.count('dataflow_nodes', nodes)
         rets = seqs.get(RETURN, set())
         n_err = 0
@@ -314,7 +353,7 @@ def check_wsgi(prog, res):
     if herr is None or hrpc is None:
         raise AnalysisError('WsgiApplication.handle_rpc/handle_error',
                             'not found')
-    seqs, nodes = seqs_of(herr)
+    seqs, nodes = seqs_of(herr, prog)
     res.count('dataflow_nodes', nodes)
     for q in sorted(seqs.get(RETURN, set())):
         ok = q.count('T:wsgi_exception') == 1
@@ -324,7 +363,7 @@ def check_wsgi(prog, res):
             res.finding('R1', 'WsgiApplication.handle_error|wsgi_exception',
                         herr.where, 'wsgi_exception fires %d times on path '
                         '[%s]' % (q.count('T:wsgi_exception'), fmt(q)))
-    seqs, nodes = seqs_of(hrpc, inline=('handle_error',))
+    seqs, nodes = seqs_of(hrpc, prog, inline=('handle_error',))
     res.count('dataflow_nodes', nodes)
     rets = seqs.get(RETURN, set())
     res.floor('R1', 'handle_rpc return sequences', len(rets), 3)
@@ -845,6 +884,42 @@ MUTANTS = [
                    '        self.is_closed = True\n        self.app.'
                    'event_manager.fire_event("method_context_closed", self)\n'
                    ), 'closed-once'),
+    Mutant('return-event-outside-try', 'R1', 'fire', _A,
+           in_func('Application.process_request',
+                   r"            ctx\.fire_event\('method_return_object'\)\n"
+                   r"(.*)(\n    def |\Z)",
+                   r"            pass\n\1\n        else:\n            "
+                   r"ctx.fire_event('method_return_object')\n\2",
+                   regex=True), 'escape'),
+    Mutant('twin-fault-recording-helper', 'R1', 'benign', _B,
+           in_func('ServerBase',
+                   r"            ctx\.in_object = None\n            "
+                   r"ctx\.in_error = e\n            ctx\.out_error = e\n\n"
+                   r"            retval = \(ctx,\)\n\n            "
+                   r"ctx\.fire_event\('method_exception_object'\)\n\n"
+                   r"        return retval\n",
+                   "            self._set_in_error(ctx, e)\n"
+                   "            retval = (ctx,)\n\n        return retval\n\n"
+                   "    def _set_in_error(self, ctx, e):\n"
+                   "        ctx.in_object = None\n        ctx.in_error = e\n"
+                   "        ctx.out_error = e\n"
+                   "        ctx.fire_event('method_exception_object')\n",
+                   regex=True), ''),
+    Mutant('fault-recording-helper-wrong-manager', 'R1', 'fire', _B,
+           in_func('ServerBase',
+                   r"            ctx\.in_object = None\n            "
+                   r"ctx\.in_error = e\n            ctx\.out_error = e\n\n"
+                   r"            retval = \(ctx,\)\n\n            "
+                   r"ctx\.fire_event\('method_exception_object'\)\n\n"
+                   r"        return retval\n",
+                   "            self._set_in_error(ctx, e)\n"
+                   "            retval = (ctx,)\n\n        return retval\n\n"
+                   "    def _set_in_error(self, ctx, e):\n"
+                   "        ctx.in_object = None\n        ctx.in_error = e\n"
+                   "        ctx.out_error = e\n"
+                   "        self.app.event_manager.fire_event("
+                   "'method_exception_object', ctx)\n",
+                   regex=True), 'generate_contexts'),
     Mutant('twin-hoist-fault', 'R1', 'benign', _A,
            in_func('Application.process_request',
                    "            ctx.out_error = Fault('Server', "
